@@ -281,9 +281,51 @@ impl<T: Clone + Flat> Vec<T> {
         }
         r
     }
-    /// same contract as the host's binary search on a sorted vector: Ok(index) of a match,
-    /// Err(insertion point) otherwise (linear scan over the flat order)
+    /// Host `binary_search`: on a vector that is sorted (strictly increasing in the model's flat order) the exact
+    /// answer — Ok(index of the match) / Err(insertion point). On an UNSORTED vector a real binary search probes
+    /// only some positions, so its answer depends on the probing sequence and on the host's own value order;
+    /// the model then answers ARBITRARILY among the answers any binary search can give (Ok(i) only with
+    /// element i equal to x; any Err position). Code that binary-searches a list it does not keep sorted is
+    /// thereby exposed instead of being hidden by a linear scan. (Native, non-Kani runs use the sorted answer.)
     pub fn binary_search(&self, x: impl Borrow<T>) -> Result<u32, u32> {
+        #[cfg(kani)]
+        {
+            let mut sorted = true;
+            let mut k = 0;
+            while k + 1 < CAP {
+                if (k as u32) + 1 < self.len {
+                    if let (Some(a), Some(b)) = (&self.items[k], &self.items[k + 1]) {
+                        sorted &= flat_lt(a, b);
+                    }
+                }
+                k += 1;
+            }
+            if !sorted {
+                let xr = x.borrow();
+                if model::arb_bool() {
+                    let i = model::arb_below(CAP as u32);
+                    let mut ok = false;
+                    let mut k = 0;
+                    while k < CAP {
+                        if k as u32 == i && i < self.len {
+                            if let Some(y) = &self.items[k] {
+                                ok = flat_eq(xr, y);
+                            }
+                        }
+                        k += 1;
+                    }
+                    model::assume(ok);
+                    return Ok(i);
+                }
+                let j = model::arb_below(CAP as u32 + 1);
+                model::assume(j <= self.len);
+                return Err(j);
+            }
+        }
+        self.search_sorted(x)
+    }
+    /// the sorted-vector answer (used directly by `Map`, whose keys are sorted by construction)
+    pub(crate) fn search_sorted(&self, x: impl Borrow<T>) -> Result<u32, u32> {
         let x = x.borrow();
         // the flat words of `x` are computed once and every element is serialised once (same result as
         // `flat_eq` followed by `flat_lt` per element, a third of the symbolic-execution cost)
@@ -451,10 +493,10 @@ impl<K: Clone + Flat, V: Clone> Map<K, V> {
         self.keys.is_empty()
     }
     pub fn contains_key(&self, k: K) -> bool {
-        self.keys.binary_search(&k).is_ok()
+        self.keys.search_sorted(&k).is_ok()
     }
     pub fn get(&self, k: K) -> Option<V> {
-        match self.keys.binary_search(&k) {
+        match self.keys.search_sorted(&k) {
             Ok(i) => self.vals.get(i),
             Err(_) => None,
         }
@@ -469,7 +511,7 @@ impl<K: Clone + Flat, V: Clone> Map<K, V> {
         }
     }
     pub fn set(&mut self, k: K, v: V) {
-        match self.keys.binary_search(&k) {
+        match self.keys.search_sorted(&k) {
             Ok(i) => self.vals.set(i, v),
             Err(i) => {
                 self.keys.insert(i, k);
@@ -478,7 +520,7 @@ impl<K: Clone + Flat, V: Clone> Map<K, V> {
         }
     }
     pub fn remove(&mut self, k: K) -> Option<()> {
-        match self.keys.binary_search(&k) {
+        match self.keys.search_sorted(&k) {
             Ok(i) => {
                 self.keys.remove(i);
                 self.vals.remove(i);
